@@ -19,11 +19,6 @@ import FuelVerif.Lemmas.Alu
 namespace FuelVerif.Alu
 open FuelVerif.Gen FuelVerif.Gen.AluArgs FuelVerif.Instr
 
-/-- `$flag` has WRAPPING set -/
-abbrev Wrapping (r : Regs) : Prop := isWrapping (r regFLAG) = true
-/-- `$flag` has UNSAFEMATH set -/
-abbrev UnsafeMath (r : Regs) : Prop := isUnsafeMath (r regFLAG) = true
-
 /-! ### the generated tables carry exactly the 33 ALU opcodes with the shapes the model executes -/
 
 def allAluOps : List AluOp :=
@@ -182,28 +177,6 @@ theorem addi_spec (g) (r : Regs) (a b imm : Nat) (ha : 16 ≤ a) (hb : r b < 2 ^
   simp only [execAlu, h1]
   exact aluCaptureOverflow_spec r a _ ha (by omega)
 
-theorem sub_core (r : Regs) (a x y : Nat) (ha : 16 ≤ a) (hx : x < 2 ^ 64) (hy : y < 2 ^ 64) :
-    aluCaptureOverflow r a (u128Sub x y) =
-      if y ≤ x then (specOk r a (x - y) 0 0, none)
-      else if Wrapping r then (specOk r a (x + 2 ^ 64 - y) (2 ^ 64 - 1) 0, none)
-      else (r, some .ArithmeticOverflow) := by
-  rw [aluCaptureOverflow_spec r a _ ha (by unfold u128Sub; exact Nat.mod_lt _ (by decide))]
-  unfold u128Sub
-  by_cases hle : y ≤ x
-  · have h1 : (x + 2 ^ 128 - y) % 2 ^ 128 = x - y := by omega
-    rw [h1, if_pos (Or.inl (by omega)), if_pos hle]
-    have h2 : (x - y) % 2 ^ 64 = x - y := Nat.mod_eq_of_lt (by omega)
-    have h3 : (x - y) / 2 ^ 64 = 0 := Nat.div_eq_of_lt (by omega)
-    rw [h2, h3]
-  · have h1 : (x + 2 ^ 128 - y) % 2 ^ 128 = x + 2 ^ 128 - y := Nat.mod_eq_of_lt (by omega)
-    rw [h1, if_neg hle]
-    by_cases hw : Wrapping r
-    · rw [if_pos (Or.inr hw), if_pos hw]
-      have h2 : (x + 2 ^ 128 - y) % 2 ^ 64 = x + 2 ^ 64 - y := by omega
-      have h3 : (x + 2 ^ 128 - y) / 2 ^ 64 = 2 ^ 64 - 1 := by omega
-      rw [h2, h3]
-    · rw [if_neg (by intro h; rcases h with h | h; omega; exact hw h), if_neg hw]
-
 /-- SUB: `rb ≥ rc` ⇒ difference, `$of = 0`; otherwise with WRAPPING the two's-complement difference and
 `$of = 2^64 − 1` (high word of the 128-bit difference), else ArithmeticOverflow -/
 theorem sub_spec (g) (r : Regs) (a b c : Nat) (ha : 16 ≤ a) (hb : r b < 2 ^ 64) (hc : r c < 2 ^ 64) :
@@ -219,10 +192,6 @@ theorem subi_spec (g) (r : Regs) (a b imm : Nat) (ha : 16 ≤ a) (hb : r b < 2 ^
       else if Wrapping r then (specOk r a (r b + 2 ^ 64 - imm) (2 ^ 64 - 1) 0, none)
       else (r, some .ArithmeticOverflow) := by
   simp only [execAlu]; exact sub_core r a _ _ ha hb (by omega)
-
-theorem mul_lt (x y : Nat) (hx : x < 2 ^ 64) (hy : y < 2 ^ 64) : x * y < 2 ^ 128 :=
-  calc x * y < 2 ^ 64 * 2 ^ 64 := Nat.mul_lt_mul'' hx hy
-    _ = 2 ^ 128 := by decide
 
 theorem mul_spec (g) (r : Regs) (a b c : Nat) (ha : 16 ≤ a) (hb : r b < 2 ^ 64) (hc : r c < 2 ^ 64) :
     execAlu g .MUL [a, b, c] r =
@@ -245,20 +214,6 @@ theorem muli_spec (g) (r : Regs) (a b imm : Nat) (ha : 16 ≤ a) (hb : r b < 2 ^
   exact aluCaptureOverflow_spec r a _ ha hm
 
 /-! ### DIV / MOD: zero divisor panics unless UNSAFEMATH, then `$err = 1`, result 0 -/
-
-theorem div_core (r : Regs) (a x y : Nat) (ha : 16 ≤ a) :
-    aluError r a (wordDiv x y) (y == 0) =
-      if y = 0 then (if UnsafeMath r then (specOk r a 0 0 1, none) else (r, some .ArithmeticError))
-      else (specOk r a (x / y) 0 0, none) := by
-  rw [aluError_spec r a _ _ ha]
-  by_cases hy : y = 0 <;> simp [hy, wordDiv]
-
-theorem mod_core (r : Regs) (a x y : Nat) (ha : 16 ≤ a) :
-    aluError r a (wordRem x y) (y == 0) =
-      if y = 0 then (if UnsafeMath r then (specOk r a 0 0 1, none) else (r, some .ArithmeticError))
-      else (specOk r a (x % y) 0 0, none) := by
-  rw [aluError_spec r a _ _ ha]
-  by_cases hy : y = 0 <;> simp [hy, wordRem]
 
 theorem div_spec (g) (r : Regs) (a b c : Nat) (ha : 16 ≤ a) :
     execAlu g .DIV [a, b, c] r =
@@ -285,15 +240,6 @@ theorem modi_spec (g) (r : Regs) (a b imm : Nat) (ha : 16 ≤ a) :
   simp only [execAlu]; exact mod_core r a _ _ ha
 
 /-! ### EXP / EXPI: no overflow ⇔ `b^c < 2^64` -/
-
-theorem exp_core (r : Regs) (a x y : Nat) (ha : 16 ≤ a) (res : Nat × Bool)
-    (hres : res = if x ^ y < 2 ^ 64 then (x ^ y, false) else (0, true)) :
-    aluBooleanOverflow r a res =
-      if x ^ y < 2 ^ 64 then (specOk r a (x ^ y) 0 0, none)
-      else if Wrapping r then (specOk r a 0 1 0, none)
-      else (r, some .ArithmeticOverflow) := by
-  rw [aluBooleanOverflow_spec r a _ ha, hres]
-  by_cases h : x ^ y < 2 ^ 64 <;> simp [h]
 
 theorem exp_spec (g) (r : Regs) (a b c : Nat) (ha : 16 ≤ a) :
     execAlu g .EXP [a, b, c] r =
@@ -372,23 +318,6 @@ theorem mldv_spec (g) (r : Regs) (a b c d : Nat) (ha : 16 ≤ a) (hb : r b < 2 ^
     · rw [if_neg (by intro h; rcases h with h | h; omega; exact hw h), if_neg (by intro h; rcases h with h | h; omega; exact hw h)]
 
 /-! ### shifts (`≥ 64 ↦ 0`), bitwise, comparisons, moves -/
-
-theorem shlWord_eq (x s : Nat) (_hx : x < 2 ^ 64) : shlWord x s = x * 2 ^ s % 2 ^ 64 := by
-  unfold shlWord
-  by_cases h : s < 64
-  · rw [if_pos (by omega), if_pos h, Nat.shiftLeft_eq]
-  · have : x * 2 ^ s % 2 ^ 64 = 0 := by
-      have : s = 64 + (s - 64) := by omega
-      rw [this, Nat.pow_add, ← Nat.mul_assoc, Nat.mul_comm x, Nat.mul_assoc]
-      exact Nat.mul_mod_right _ _
-    rw [this]; split <;> simp [h]
-
-theorem shrWord_eq (x s : Nat) (hx : x < 2 ^ 64) : shrWord x s = x / 2 ^ s := by
-  unfold shrWord
-  by_cases h : s < 64
-  · rw [if_pos (by omega), if_pos h, Nat.shiftRight_eq_div_pow]
-  · have : x / 2 ^ s = 0 := Nat.div_eq_of_lt (Nat.lt_of_lt_of_le hx (Nat.pow_le_pow_right (by decide) (by omega)))
-    rw [this]; split <;> simp [h]
 
 theorem sll_spec (g) (r : Regs) (a b c : Nat) (ha : 16 ≤ a) (hb : r b < 2 ^ 64) :
     execAlu g .SLL [a, b, c] r = (specOk r a (r b * 2 ^ r c % 2 ^ 64) 0 0, none) := by
